@@ -100,6 +100,10 @@ def rule_decline(ctx, rep):
 
 def run(ctx, rep):
     rule_unwrap(ctx, rep)
+    # premise of every verdict on "sole owner": the count equals the number of owning handles on every path of every
+    # operation, unwinding included (the balance rules of C01/C04)
+    balance.rule_bal(ctx, rep)
+    balance.rule_unw(ctx, rep)
     from . import c03
 
     c03.rule_gate_def(ctx, rep)  # exactly-one-winner under races rests on the Acquire gate (and on C02)
